@@ -90,7 +90,7 @@ PROPS = {
     },
     "C19": {
         "engine": "e1",
-        "quick": {"runs": 32000, "block": 500, "wall": 75},
+        "quick": {"runs": 120000, "block": 2000, "wall": 75},
         "thorough": {"runs": 2000000, "block": 5000, "wall": 560},
         "meta": E1_META,
     },
